@@ -25,6 +25,9 @@
 #ifndef T_END
 #define T_END ""
 #endif
+#ifndef PAD
+#define PAD 0	/* 0: the block is an exactly sized object; 4: block followed by CRLFCRLF inside the same object (server layout) */
+#endif
 
 struct in_s { uint8_t sym[NSYM + 1]; uint8_t method; };
 #include "verif_in.h"
@@ -41,7 +44,7 @@ static int ci_is(const uint8_t *a, size_t an, const char *lit, size_t ln) {
 
 void harness(void) {
 	V_BEGIN();
-	static uint8_t buf_store[TOTAL];	/* exactly sized object */
+	static uint8_t buf_store[TOTAL + PAD];	/* exactly sized object */
 	uint8_t *buf = buf_store;
 	size_t pos = 0, si = 0;
 	size_t f_n0[3] = { 0, 0, 0 }, f_n1[3] = { 0, 0, 0 };
@@ -61,6 +64,9 @@ void harness(void) {
 	FIELD(2, T_N3, T_V3);
 #endif
 	T_EMIT(buf, pos, T_END, IN.sym, si);
+#if PAD == 4	/* http_server.c layout: hdr_size stops before the CRLFCRLF that is physically present in the receive buffer */
+	buf[TOTAL] = '\r'; buf[TOTAL + 1] = '\n'; buf[TOTAL + 2] = '\r'; buf[TOTAL + 3] = '\n';
+#endif
 	V_ASSERT(pos == TOTAL && si == NSYM, "harness self-check: template sizes");
 	uint32_t method = IN.method;
 	V_ASSUME(method < HTTP_REQ_METHOD__COUNT__);
